@@ -303,6 +303,10 @@ pub fn units(prop: &str, tier: Tier) -> Option<Vec<Unit>> {
                 class("kstate-emissions-state", &en::k_state(), pick(3, 4)).cfg(CfgId::RichSt).probes(STATE).alarm(alarm).unit(),
                 class("kemit-deep", &en::k_emit(), pick(5, 6)).alpha(&['a', 'b'], 4).cfg(CfgId::RichSt).probes(STATE).alarm(alarm).unit(),
                 class("kpadded-emissions-state", &en::k_padded(), pick(4, 5)).alpha(&['a', ' ', 'b'], 4).cfg(CfgId::RichSt).probes(STATE).alarm(alarm).unit(),
+                // error types without content still count: every emission on the surviving path is one list entry
+                class("kemit-emptyerr", &en::k_emit(), pick(5, 6)).alpha(&['a', 'b'], 4).cfg(CfgId::Empty).probes(NOPROBE).alarm(EMI | EMF | NOE).unit(),
+                class("kext-emissions-emptyerr", &en::k_ext(), pick(3, 4)).cfg(CfgId::Empty).probes(NOPROBE).alarm(EMI | EMF | NOE).unit(),
+                class("kext-emissions-cheap", &en::k_ext(), pick(3, 4)).cfg(CfgId::Cheap).probes(NOPROBE).alarm(EMI | EMF | NOE).unit(),
                 class("kemit-through-clone", &en::k_emit(), pick(4, 5)).alpha(&['a', 'b'], 4).cfg(CfgId::RichSt).probes(STATE).alarm(alarm).clone_mode().unit(),
                 e1("k02-emissions", "repeated()/separated_by() templates with emitting items and emitting separators (every bounds / flags / sink setting), each followed by a rest capture".into(), {
                     let mut v = en::k02_rep(false);
@@ -395,6 +399,10 @@ pub fn units(prop: &str, tier: Tier) -> Option<Vec<Unit>> {
             vec![
                 class("krecfail-deep", &en::k_recfail(), pick(7, 8)).alpha(&['a', 'b'], pick(4, 5)).alarm(alarm).unit(),
                 class("kext-recovery", &en::k_ext(), pick(4, 4)).len(pick(4, 5)).alarm(alarm).unit(),
+                // recovery decides by the error list (skip_then_retry_until accepts only an error-free retry): the same
+                // decisions with error types that carry little or nothing
+                class("kext-recovery-emptyerr", &en::k_ext(), pick(4, 4)).cfg(CfgId::Empty).probes(NOPROBE).alarm(ACC | VAL | EMI | EMF | NOE).unit(),
+                class("kext-recovery-cheap", &en::k_ext(), pick(3, 4)).cfg(CfgId::Cheap).probes(NOPROBE).alarm(ACC | VAL | EMI | EMF | PSP | NOE).unit(),
                 class("kext-recovery-through-clone", &en::k_ext(), pick(3, 4)).alarm(alarm).clone_mode().unit(),
                 class("knd-nested-delimiters", &en::k_nd(), pick(3, 4)).alpha(&BRACKETS, pick(4, 5)).alarm(alarm).unit(),
                 e1("kext-statically-typed", "statically typed parsers: extended-class grammars (recovery, validate, labels, map_err, separators) with 2 nodes and a stride of the 3-node ones".into(), vec![]).static_set("ext").len(pick(4, 5)).alarm(alarm).unit(),
@@ -625,6 +633,18 @@ pub fn units(prop: &str, tier: Tier) -> Option<Vec<Unit>> {
                     .probes(CTX)
                     .alarm(alarm)
                     .unit(),
+                e1("ctx-providers-as-chain-links", "a context provider as one link of an iterable chain (first.then(a.ignore_with_ctx(item.repeated()..)) and the other way round): 5 other links (repeated, or_not, into_iter, separated_by) x 2 providers x 3 items x 6 kinds x 7 sinks x 2 orders; each followed by a rest capture".into(), en::ctx_chain_templates())
+                    .len(pick(5, 6))
+                    .cfg(CfgId::RichCx)
+                    .probes(CTX)
+                    .alarm(alarm)
+                    .unit(),
+                e1("ctx-huge-counts", "counts far beyond anything storable (usize::MAX / 4), as a static context and read from the input as a length prefix, x every way of configuring a repetition from the context (exactly / at_most / at_least over static bounds, try_configure, uncollected, as iterable parsers and chain links) x sinks".into(), en::ctx_huge_templates())
+                    .alpha(&['a', 'e', 'b'], pick(4, 5))
+                    .cfg(CfgId::RichCx)
+                    .probes(CTX)
+                    .alarm(alarm)
+                    .unit(),
                 e1("ctx-families", "hand-built context-sensitive families: length-prefixed (nested, repeated, in choices), range from context, try_configure errors, delimiter-echo (nested providers), recursion under a context, indentation-like levels".into(), en::ctx_families())
                     .len(pick(6, 8))
                     .cfg(CfgId::RichCx)
@@ -667,6 +687,10 @@ pub fn units(prop: &str, tier: Tier) -> Option<Vec<Unit>> {
                 class("kstate-slice", &en::k_state(), pick(3, 3)).kind(KindId::Slice).cfg(CfgId::RichSt).probes(STATE).alarm(alarm).unit(),
                 e1("kstate-by-reference-slice", "state-class grammars (<= 3 nodes) reading a token through any / select, rewritten to any_ref / select_ref (tokens handed out by reference reach the inspector too)".into(), en::by_ref_all(&en::k_state().upto(3))).kind(KindId::Slice).cfg(CfgId::RichSt).probes(STATE).alarm(alarm).unit(),
                 class("kstate-stream", &en::k_state(), pick(3, 3)).kind(KindId::Stream).cfg(CfgId::RichSt).probes(STATE).alarm(alarm).unit(),
+                // closures that decide by the state they see, inside look-aheads / options / recoveries: the state must be
+                // right WHILE every sub-parser runs, not only after it
+                class("kstguard-str", &en::k_stguard(), pick(5, 6)).alpha(&['a', 'b'], pick(4, 5)).cfg(CfgId::RichSt).probes(STATE).alarm(alarm | ACC | VAL).unit(),
+                class("kstguard-stream", &en::k_stguard(), pick(4, 5)).alpha(&['a', 'b'], 4).kind(KindId::Stream).cfg(CfgId::RichSt).probes(STATE).alarm(alarm | ACC | VAL).unit(),
                 // .padded() advances with InputRef::skip_while: skipped tokens reach the inspector exactly once
                 class("kpadded-str", &en::k_padded(), pick(5, 6)).alpha(&['a', ' ', 'b'], 4).cfg(CfgId::RichSt).probes(STATE).alarm(alarm).unit(),
                 class("kpadded-slice", &en::k_padded(), pick(4, 5)).alpha(&['a', ' ', 'b'], 4).kind(KindId::Slice).cfg(CfgId::RichSt).probes(STATE).alarm(alarm).unit(),
@@ -687,6 +711,8 @@ pub fn units(prop: &str, tier: Tier) -> Option<Vec<Unit>> {
                     // "no stack exhaustion": operator chains and nestings up to a million levels
                     v.push(rec_unit("rec-depth", tier));
                     v.push(e1("k02-iter-chains", "iterable parsers chained with IterParser::then (repeated / separated_by / or_not / into_iter links) x 7 sinks".into(), en::k02_chain(false)).alpha(&ABCOMMA, pick(4, 5)).probes(NOPROBE).alarm(alarm).unit());
+                    // a hostile length prefix: a repetition told to expect usize::MAX / 4 items reports an error, nothing else
+                    v.push(e1("ctx-huge-counts", "counts far beyond anything storable (usize::MAX / 4), as a static context and read from the input as a length prefix, x every way of configuring a repetition from the context x sinks".into(), en::ctx_huge_templates()).alpha(&['a', 'e', 'b'], pick(4, 5)).cfg(CfgId::RichCx).probes(NOPROBE).alarm(alarm | CHK).unit());
                     v.push(Unit::Custom { name: "primitive-seq-flavours+unbounded".into(), run: Box::new(move |cx| eng_inputs::run("primitive-seq-flavours+unbounded", tier, cx)) });
                     v.push(Unit::Custom { name: "pull-budgets".into(), run: Box::new(move |cx| eng_inputs::run("pull-budgets", tier, cx)) });
                     v.push(Unit::Custom { name: "text-totality".into(), run: Box::new(move |cx| eng_text::run_totality("text-totality", if tier == Tier::Quick { 4 } else { 5 }, cx)) });
